@@ -206,7 +206,8 @@ BOUNDED = [bounded("fa_repro.py", "affine", "C15.fa",
 SHARED = [("C01", "lwl_post", ["C01.lwl.post"]), ("C01", "ll_post", ["C01.ll.post"]), ("C02", "estep_post", ["C02.estep.n", "C02.estep.sum_px", "C02.estep.sum_pxx"]),
           ("C03", "mstep_ml", ["C03.m.means", "C03.m.variances", "C03.m.weights"]), ("C05", "mstep_map", ["C05.means", "C05.variances", "C05.weights"]),
           ("C08", "post", ["C08.post", "C08.norm"]), ("C10", "projection", ["C10.project"]), ("C06", "estep", ["C06.assign"]), ("C20", "dist", ["C20.dist.ndarray"])]
-REPLAY = [("C15.fa", "fa_repro.py", "affine", {}), ("C15.map", "gmm_repro.py", "map_mstep", {}), ("C15", "gmm_repro.py", "affine", {})]
+REPLAY = [("C15.lwl", "gmm_repro.py", "affine", {}), ("C15.estep", "gmm_repro.py", "affine", {}), ("C15.ml", "gmm_repro.py", "affine", {}), ("C15.fa", "fa_repro.py", "affine", {}), ("C15.map", "gmm_repro.py", "map_mstep", {}), ("C15", "gmm_repro.py", "affine", {})]
 TRUSTED = ["rotation invariance of the Euclidean norm (k-means under rotations)", "argmin_k f(k) = argmin_k s^2 f(k) for s != 0",
            "log atoms denote log|.| (so log(a^2 v) = 2 log|a| + log v)"]
 ASSUMPTIONS = ["no variance floor / count floor active (or floors transformed with the features)", "a_d != 0"]
+XCHECK = ['gmm', 'linear', 'ivector', 'kmeans']
